@@ -14,7 +14,7 @@
 EXTENDS Integers, Sequences, FiniteSets, TLC
 Bad == 99
 NoFault == [site |-> "none", occ |-> 0, exc |-> ""]
-Deciding == {"validator", "dflt", "getter", "setter", "item", "factory", "cpgetter_read"}
+Deciding == {"validator", "dflt", "getter", "setter", "item", "factory", "cpgetter_read", "drdflt", "pvalidator"}
 HandlerSites == {"hstatic", "hdyn", "hobs"}
 InsSorted(q, v) == IF \E k \in 1..Len(q) : q[k] = v THEN q
                    ELSE SelectSeq(q, LAMBDA x : x < v) \o <<v>> \o SelectSeq(q, LAMBDA x : x > v)
@@ -23,7 +23,8 @@ InsAll(q, xs) == IF xs = <<>> THEN q ELSE InsAll(InsSorted(q, Head(xs)), Tail(xs
 DelAll(q, xs) == SelectSeq(q, LAMBDA x : \A k \in 1..Len(xs) : xs[k] # x)
 SymDiff(q, xs) == InsAll(DelAll(q, xs), SelectSeq(xs, LAMBDA x : \A k \in 1..Len(q) : q[k] # x))
 
-\* st = [v, vq, dflt ("unset" as -1), p, lst, sset, sup (0 none | chain length)]
+\* st = [v, vq, dflt ("unset" as -1), p, lst, sset, sup (0 none | chain length), ea (likewise, for the compound trait),
+\*       dr (-1: no value cached), start (-1: default not yet computed), sva, svb (the two synchronised attributes)]
 \* result: [st, exc ("" | "fault" = the injected class or TraitError | "TraitError"), handlers : set of handler sites called]
 Res(st, exc, hs) == [st |-> st, exc |-> exc, hs |-> hs]
 Hit(f, site, n) == f.site = site /\ f.occ >= 1 /\ f.occ <= n          \* the faulty invocation happens (site is invoked n times)
@@ -60,5 +61,31 @@ Apply(op, st, a, xs, f) ==
          ELSE Res([st EXCEPT !.sset = SymDiff(@, xs)], "", {})
     [] op = "sup_assign" ->            \* Supports(Target): a chain of a adapter factories (a = 0: provides already)
          IF Hit(f, "factory", a) THEN Res(st, "fault", {}) ELSE Res([st EXCEPT !.sup = a], "", {})
+    \* ea = Either(Instance(Target, adapt="yes"), Instance(Plain)): a = 0 a Target, a = 1 an object that is a Plain AND adapts
+    \* to Target through one factory: a failing factory is a failing assignment, not "no match, try the next alternative"
+    [] op = "ea_assign" ->
+         IF Hit(f, "factory", a) THEN Res(st, "fault", {}) ELSE Res([st EXCEPT !.ea = a], "", {})
+    \* dr = Range(low="lo", high="hi", value="start"): the old value of a never-set dynamic range is the value of `start`,
+    \* whose _start_default method (site drdflt) runs at its first use - before anything is stored
+    [] op = "set_dr" ->
+         IF a = Bad THEN Res(st, "TraitError", {})
+         ELSE IF st.dr = -1 /\ st.start = -1 /\ Hit(f, "drdflt", 1) THEN Res(st, "fault", {})
+         ELSE Res([st EXCEPT !.dr = a, !.start = IF st.dr = -1 THEN 3 ELSE @], "", {})
+    [] op = "read_dr" ->
+         IF st.dr # -1 THEN Res(st, "", {})
+         ELSE IF st.start = -1 /\ Hit(f, "drdflt", 1) THEN Res(st, "fault", {})
+         ELSE Res([st EXCEPT !.dr = 3, !.start = 3], "", {})
+    \* sva / svb: obj.sync_trait("sv", partner, mutual=True); the partner's attribute has a custom validator (site pvalidator).
+    \* sync_a: obj.sv = a.  The partner is updated by a change handler: if its validator refuses, the operation on obj is
+    \* complete, the partner keeps its value, nothing escapes - and the pair goes on synchronising.
+    [] op = "sync_a" ->
+         IF st.sva = a THEN Res(st, "", {})
+         ELSE IF Hit(f, "pvalidator", 1) THEN Res([st EXCEPT !.sva = a], "", {})
+         ELSE Res([st EXCEPT !.sva = a, !.svb = a], "", {})
+    \* sync_b: partner.sv = a: here the validator decides
+    [] op = "sync_b" ->
+         IF Hit(f, "pvalidator", 1) THEN Res(st, "fault", {})
+         ELSE IF st.svb = a THEN Res(st, "", {})
+         ELSE Res([st EXCEPT !.svb = a, !.sva = a], "", {})
 IsHandlerFault(f) == f.site \in HandlerSites
 =============================================================================
